@@ -135,7 +135,8 @@ def execute(scenario, seed, overrides=None):
                     if not m.authorities:
                         for r in m.answers:
                             known.setdefault(r.ident(), []).append(r.ttl)
-            first_q = pk[0][1].questions
+            # "a query consisting of a single SRV, A, AAAA or NSEC question": the query is the whole assembled train
+            first_q = [q for (_, m) in pk for q in m.questions]
             for (_, m) in pk:
                 for q in m.questions:
                     req, opt = reg.answers(q)
